@@ -348,6 +348,66 @@ func init() {
 				c.emit(map[string]interface{}{"k": "tile", "tile": t3(tile), "ext": int(l.Extent), "pow2": pow2, "in": in2, "out": out2, "nt": 1})
 			}
 		}
+		// (2c) neighbouring tiles in turn: layers of two (three) tiles that differ in one bit of the column or of the row - also
+		// the deepest zooms and both halves of the world - are projected to WGS84 one after the other and only then back, in
+		// another order: each comes back with its own integers (what was set up for one tile is not used for another)
+		for i := 0; i < c.pick(400, 6000); i++ {
+			z := uint32([]int{22, 22, 21, 20, 16, 9, 30, 24}[c.rng.Intn(8)])
+			max := uint32(1) << z
+			a := maptile.New(c.rng.Uint32()%max, c.rng.Uint32()%max, maptile.Zoom(z))
+			if c.rng.Intn(2) == 0 { // the southern half, the last rows
+				a.Y = max/2 + c.rng.Uint32()%(max/2)
+			}
+			bit := uint32(1) << uint(c.rng.Intn(int(z)))
+			if c.rng.Intn(2) == 0 {
+				bit = 1
+			}
+			b, d := a, a
+			b.X ^= bit
+			d.Y ^= bit
+			tiles := []maptile.Tile{a, b, d}
+			ext := extsP2[c.rng.Intn(len(extsP2))]
+			var layers []*mvt.Layer
+			var ins [][][2]int
+			for range tiles {
+				var pts [][2]int
+				mp := orb.MultiPoint{}
+				for j := 0; j < 6; j++ {
+					p := [2]int{c.rng.Intn(int(ext)), c.rng.Intn(int(ext))}
+					pts = append(pts, p)
+					mp = append(mp, orb.Point{float64(p[0]), float64(p[1])})
+				}
+				fc := geojson.NewFeatureCollection()
+				fc.Append(geojson.NewFeature(orb.LineString(mp)))
+				l := mvt.NewLayer("l", fc)
+				l.Extent = ext
+				layers = append(layers, l)
+				ins = append(ins, pts)
+			}
+			setCurrent("mvt.ProjectToWGS84/ToTile(neighbours)", ins)
+			site := guard(func() {
+				for k, l := range layers {
+					l.ProjectToWGS84(tiles[k])
+				}
+				for _, k := range [][]int{{1, 2, 0}, {2, 0, 1}, {1, 0, 2}}[c.rng.Intn(3)] {
+					layers[k].ProjectToTile(tiles[k])
+				}
+			})
+			if site != "" {
+				c.emit(panicEvent("mvt.Project", site, ins))
+				continue
+			}
+			for k, l := range layers {
+				var out [][2]int
+				for _, p := range flatPoints(l.Features[0].Geometry) {
+					out = append(out, [2]int{clipInt(p[0]), clipInt(p[1])})
+				}
+				for len(out) < len(ins[k]) {
+					out = append(out, [2]int{1000000000, 1000000000})
+				}
+				c.emit(map[string]interface{}{"k": "tile", "tile": t3(tiles[k]), "ext": int(ext), "pow2": true, "in": ins[k], "out": out[:len(ins[k])], "nt": 1})
+			}
+		}
 		// (3) lon/lat <-> mercator residuals on a 1 degree grid plus seeded points; anchors
 		rt := func(lon, lat float64) {
 			p := orb.Point{lon, lat}
